@@ -73,6 +73,7 @@ def run_schedules(verdict, prop, beh, nreaders, nwriters, commits, reads, tag, r
     trace_states = [0]
     pending = parts
     first = True
+    restarts = {}
     while pending:
         procs = []
         for i, (fn, base, skip) in enumerate(pending):
@@ -120,7 +121,10 @@ def run_schedules(verdict, prop, beh, nreaders, nwriters, commits, reads, tag, r
                                     "rc": p.returncode},
                                    {"schedule": beh[base + idx]["sched"] if idx is not None and idx < 1000000 and base + idx < n else None,
                                     "stderr": (err or "")[-800:]})
-                if idx is not None and idx < 1000000 and n and idx + 1 < len(json.load(open(fn))):
+                # (a change that deadlocks everything would otherwise cost 10 s + a restart per schedule:
+                # after a few restarts of a part the verdict has its examples)
+                restarts[fn] = restarts.get(fn, 0) + 1
+                if idx is not None and idx < 1000000 and n and idx + 1 < len(json.load(open(fn))) and restarts[fn] <= 4:
                     pending.append((fn, base, idx + 1))
                 if not got_summary:
                     runs += 1
@@ -141,7 +145,7 @@ def run_schedules(verdict, prop, beh, nreaders, nwriters, commits, reads, tag, r
                     start = r["line"]
                     while start > 1 and '"ev":"reset"' not in tl[start - 1]:
                         start -= 1
-                    owner = "C04" if r["rule"] in ("release-bound", "reader-snapshot-older-than-a-completed-commit",
+                    owner = "C04" if r["rule"] in ("release-bound", "reader-page-released", "reader-snapshot-older-than-a-completed-commit",
                                                    "deregistered-unknown-reader") else "C09"
                     verdict.report({"kind": "threads", "class": "trace:" + r["rule"], "owner": owner,
                                     "readers": nreaders, "writers": nwriters},
